@@ -170,8 +170,22 @@ func runCheck(prop, tier, root string, seed int) int {
 	loops := 0
 	for _, u := range units {
 		if u.Err != nil {
-			fmt.Printf("ENGINE-ERROR property=%s %s: %v\n", prop, u.Key, u.Err)
-			engineErr++
+			// a unit under contract that can no longer be generated (function gone, construct outside the subset):
+			// its obligations were discharged on the unchanged tree and are undecided now
+			name := u.Key + "/unit-cannot-be-verified"
+			if kfd, isKnown := known[name]; isKnown {
+				knownSeen[name] = true
+				nKnown++
+				fmt.Printf("KNOWN-FINDING: property=%s %s — %s\n", prop, name, kfd.What)
+				continue
+			}
+			nObl++
+			nViol++
+			violNames = append(violNames, name)
+			rpath := filepath.Join(replayDir, shortFile(name)+".json")
+			rb, _ := json.MarshalIndent(map[string]interface{}{"property": prop, "obligation": name, "note": "the unit's obligations were discharged on the unchanged tree; on this tree the unit cannot be generated: " + u.Err.Error(), "confirmed_on_real_code": false}, "", " ")
+			os.WriteFile(rpath, rb, 0o644)
+			fmt.Printf("VIOLATION property=%s replay=%s obligation=%s (%v) no-failing-input-found\n", prop, rpath, name, u.Err)
 			continue
 		}
 		fns = append(fns, u.VC.name)
@@ -233,6 +247,31 @@ func runCheck(prop, tier, root string, seed int) int {
 			}
 			fmt.Printf("VIOLATION property=%s replay=%s obligation=%s status=%s at %s:%d (%s)%s\n", prop, rp.Path, o.Name, o.Status, o.Pos.Filename, o.Pos.Line, o.Desc, suffix)
 		}
+	}
+	// stability report: obligations that needed more than a fifth of the timeout are candidates for flicker
+	type slowO struct {
+		n string
+		s float64
+		v string
+	}
+	var slow []slowO
+	for _, u := range units {
+		if u.VC == nil {
+			continue
+		}
+		for _, o := range u.VC.obls {
+			if o.Status == "unsat" && o.Seconds > 8 {
+				slow = append(slow, slowO{o.Name, o.Seconds, o.Solver})
+			}
+		}
+	}
+	sort.Slice(slow, func(i, j int) bool { return slow[i].s > slow[j].s })
+	var slowNames []string
+	for i, so := range slow {
+		if i < 12 {
+			fmt.Printf("NOTE property=%s slow obligation %.1fs (%s) %s\n", prop, so.s, so.v, so.n)
+		}
+		slowNames = append(slowNames, fmt.Sprintf("%s %.1fs %s", so.n, so.s, so.v))
 	}
 	for name, f := range known {
 		if !knownSeen[name] {
